@@ -765,7 +765,7 @@ func genC18(e *emitter, r *rng, tier string) {
 	genRoots(e, r, tier, []int{2, 3})
 	if tier == "thorough" {
 		for _, deg := range []int{2, 3} {
-			rd := radicand{"deep", big.NewInt(int64(2 + r.intn(90))), big.NewInt(int64(1 + r.intn(9))), 0}
+			rd := radicand{"deep", big.NewInt(int64(2 + r.intn(90))), big.NewInt(int64(1 + r.intn(9))), 0, false}
 			for v := 1; v <= 3; v++ {
 				emitRootLine(e, v, deg, "rat64", rd, 50000, 1)
 			}
